@@ -5,7 +5,7 @@
 
   api: RP | CA n | CO n | TR | TG | ER.   k: 0 = no fault, else the k-th probe of this call faults; kind: t | i.
   beh (prefix form): K | S a b | P id | T | BR | RT | I | Ft n b | Fc n b | Fn n b | Fo b | FO ret b | Fr b | Fb b | Fp b
-                   | Y hc hf body handler fin | G n b | At b | Aw b | Ap b | Aq b | Bq b | Bt b | Bw b | Bp b | J b
+                   | Y hc hf body handler fin | G n b | At b | Aw b | Ap b | Aq b | Bq b | Bt b | Bw b | Bp b | J b | YT a b | AC n body | GC slot n body | GN slot | GT slot | GR slot
   Answer: per call  <outcome>|<trace>|<state>  joined by " ; ", where trace = "id:c,t,i,r …" and
   state = sp,sb,prgNil,stashGlobal,privNil,callLen,tryLen,iterLen,refLen,jobs,interrupted,privDepth,
   curAsyncRunnerNil (the model has no async runner: constant 1),newTargetNil,args.
@@ -92,6 +92,19 @@ def parseBeh : Nat → List String → Option (Beh × List String)
     | "Bp" :: r => do
       let (b, r1) ← parseBeh fuel r
       pure (.swallow .runProgramRec b, r1)
+    | "YT" :: r => do
+      let (a, r1) ← parseBeh fuel r
+      let (b, r2) ← parseBeh fuel r1
+      pure (.yieldThen a b, r2)
+    | "GC" :: slot :: n :: r => do
+      let (b, r1) ← parseBeh fuel r
+      pure (.genNew (natOf slot) (natOf n) theFn b, r1)
+    | "AC" :: n :: r => do
+      let (b, r1) ← parseBeh fuel r
+      pure (.asyncNew (natOf n) theFn b, r1)
+    | "GN" :: slot :: r => some (.genNext (natOf slot), r)
+    | "GT" :: slot :: r => some (.genThrow (natOf slot), r)
+    | "GR" :: slot :: r => some (.genReturn (natOf slot), r)
     | "J" :: r => do
       let (b, r1) ← parseBeh fuel r
       pure (.job b, r1)
@@ -109,7 +122,7 @@ def parseApi : List String → Option (TopApi × List String)
   | _ => none
 
 def showOutcome : Outcome → String
-  | .normal => "ok" | .thrown => "ex" | .fatal => "fatal" | .stuck => "STUCK"
+  | .normal => "ok" | .thrown => "ex" | .fatal => "fatal" | .stuck => "STUCK" | .exit _ => "EXIT"
 
 def b01 (b : Bool) : String := if b then "1" else "0"
 
